@@ -483,11 +483,52 @@ fn u(p: &Value, k: &str) -> u32 {
     p[k].as_u64().unwrap_or_else(|| panic!("missing integer parameter {k}")) as u32
 }
 
+/// "comp:" pseudo-templates: a single variation component between a selection and an evaluation, in a loop that
+/// keeps the (evaluated) population size constant — every shipped operator is observed under the step observer
+/// on evaluated parents, with odd / even numbers of selected parents (C05: stale objective values).
+fn component_loop<P: SingleObjectiveProblem>(
+    init: Box<dyn Component<P>>,
+    component: Box<dyn Component<P>>,
+    p: &Value,
+    n: u32,
+) -> ExecResult<Configuration<P>> {
+    use mahf::components::{replacement, selection};
+    let popsize = u(p, "popsize");
+    let select = u(p, "select");
+    let selection = if select == 0 { selection::All::new() } else { selection::FullyRandom::new(select) };
+    Ok(Configuration::builder()
+        .do_(init)
+        .evaluate()
+        .update_best_individual()
+        .while_(LessThanN::iterations(n), |b| {
+            b.do_(selection).do_(component).evaluate().update_best_individual().do_(replacement::MuPlusLambda::new(popsize))
+        })
+        .build())
+}
+
 pub fn real_template<P>(name: &str, p: &Value, n: u32) -> ExecResult<Configuration<P>>
 where
     P: SingleObjectiveProblem + LimitedVectorProblem<Element = f64>,
 {
+    use mahf::components::{initialization, mutation, recombination};
     let cond = || LessThanN::iterations(n);
+    if let Some(c) = name.strip_prefix("comp:") {
+        let pc = p["pc"].as_f64().unwrap_or(1.0);
+        let rm = p["rm"].as_f64().unwrap_or(1.0);
+        let component: Box<dyn Component<P>> = match c {
+            "UniformCrossover_single" => recombination::UniformCrossover::new_insert_single(pc),
+            "UniformCrossover_both" => recombination::UniformCrossover::new_insert_both(pc),
+            "NPointCrossover_single" => recombination::NPointCrossover::new_insert_single(1, pc),
+            "NPointCrossover_both" => recombination::NPointCrossover::new_insert_both(1, pc),
+            "ArithmeticCrossover_single" => recombination::ArithmeticCrossover::new_insert_single(pc),
+            "ArithmeticCrossover_both" => recombination::ArithmeticCrossover::new_insert_both(pc),
+            "NormalMutation" => mutation::NormalMutation::new(0.1, rm),
+            "UniformMutation" => mutation::UniformMutation::new(0.1, rm),
+            "PartialRandomSpread" => mutation::PartialRandomSpread::new(rm),
+            other => return Err(eyre::eyre!("unknown real component {other}")),
+        };
+        return component_loop(initialization::RandomSpread::new(u(p, "popsize")), component, p, n);
+    }
     match name {
         "real_ga" => ga::real_ga(
             ga::RealProblemParameters { population_size: u(p, "population_size"), tournament_size: u(p, "tournament_size"), pm: f(p, "pm"), deviation: f(p, "deviation"), pc: f(p, "pc") },
@@ -549,6 +590,21 @@ pub fn bit_template<P>(name: &str, p: &Value, n: u32) -> ExecResult<Configuratio
 where
     P: SingleObjectiveProblem + VectorProblem<Element = bool>,
 {
+    use mahf::components::{initialization, mutation, recombination};
+    if let Some(c) = name.strip_prefix("comp:") {
+        let pc = p["pc"].as_f64().unwrap_or(1.0);
+        let rm = p["rm"].as_f64().unwrap_or(1.0);
+        let component: Box<dyn Component<P>> = match c {
+            "UniformCrossover_single" => recombination::UniformCrossover::new_insert_single(pc),
+            "UniformCrossover_both" => recombination::UniformCrossover::new_insert_both(pc),
+            "NPointCrossover_single" => recombination::NPointCrossover::new_insert_single(1, pc),
+            "NPointCrossover_both" => recombination::NPointCrossover::new_insert_both(1, pc),
+            "BitFlipMutation" => mutation::BitFlipMutation::new(rm),
+            "PartialRandomBitstring" => mutation::PartialRandomBitstring::new_uniform(rm),
+            other => return Err(eyre::eyre!("unknown bit component {other}")),
+        };
+        return component_loop(initialization::RandomBitstring::new_uniform(u(p, "popsize")), component, p, n);
+    }
     match name {
         "binary_ga" => ga::binary_ga(
             ga::BinaryProblemParameters { population_size: u(p, "population_size"), tournament_size: u(p, "tournament_size"), rm: f(p, "rm"), pc: f(p, "pc"), pm: f(p, "pm") },
@@ -562,7 +618,22 @@ pub fn perm_template<P>(name: &str, p: &Value, n: u32) -> ExecResult<Configurati
 where
     P: SingleObjectiveProblem + TravellingSalespersonProblem,
 {
+    use mahf::components::{initialization, mutation, recombination};
     let cond = || LessThanN::iterations(n);
+    if let Some(c) = name.strip_prefix("comp:") {
+        let pc = p["pc"].as_f64().unwrap_or(1.0);
+        let component: Box<dyn Component<P>> = match c {
+            "CycleCrossover_single" => recombination::CycleCrossover::new_insert_single(pc),
+            "CycleCrossover_both" => recombination::CycleCrossover::new_insert_both(pc),
+            "SwapMutation" => mutation::SwapMutation::new(2)?,
+            "ScrambleMutation" => <mutation::ScrambleMutation>::new_full(),
+            "InversionMutation" => mutation::InversionMutation::new::<P, usize>(),
+            "InsertionMutation" => mutation::common::InsertionMutation::new(),
+            "TranslocationMutation" => mutation::TranslocationMutation::new(),
+            other => return Err(eyre::eyre!("unknown permutation component {other}")),
+        };
+        return component_loop(initialization::RandomPermutation::new(u(p, "popsize")), component, p, n);
+    }
     match name {
         "permutation_sa" => sa::permutation_sa(sa::PermutationProblemParameters { t_0: f(p, "t_0"), alpha: f(p, "alpha"), num_swap: u(p, "num_swap") }, cond()),
         "permutation_ls" => ls::permutation_ls(ls::PermutationProblemParameters { num_neighbors: u(p, "num_neighbors"), num_swap: u(p, "num_swap") }, cond()),
